@@ -174,11 +174,49 @@ Definition shape_ok (std : stddefs) (e : vexpr) (t : ty) (s : sval) : bool :=
   | _, _ => false
   end.
 
+(* The same clauses at every level of a helper tower (seeded C14-h): every constant held inside a constant
+   is a constant value too, so the field the enclosing value embeds for the sub-expression x must be the value x's
+   constructor was asked for, at the type the enclosing variant row / element type gives it.  Read on the general
+   spelling.  A helper that unpacks, flattens or collapses an argument which is itself sugar (None_(Option T) built
+   as None_(T), Some(Some x) as Some x, Tuple(Tuple x) as Tuple x) reports a type its serialized form does
+   inhabit - consistently one level too shallow - and can keep every length of the root clause; it fails here, on
+   the sub-expression.  Only inside the property's domain (wf_expr): for a field the declared row has no type for,
+   nothing is promised. *)
+Fixpoint shape_deep (std : stddefs) (e : vexpr) (t : ty) (s : sval) {struct e} : bool :=
+  let fix fields (es : list vexpr) (row : list ty) (ss : list sval) : bool :=
+    match es, row, ss with
+    | [], [], [] => true
+    | x :: er, t' :: tr, s' :: sr => shape_deep std x t' s' && fields er tr sr
+    | _, _, _ => false
+    end in
+  let fix elems (es : list vexpr) (elem : ty) (ss : list sval) : bool :=
+    match es, ss with
+    | [], [] => true
+    | x :: er, s' :: sr => shape_deep std x elem s' && elems er elem sr
+    | _, _ => false
+    end in
+  shape_ok std e t s &&
+  match e, s with
+  | ESum tag _ vs, SSum _ _ ss =>
+      match sum_rows t with
+      | Some rows => match nth_error rows tag with Some row => fields vs row ss | None => false end
+      | None => false
+      end
+  | ETuple vs, SSum _ _ ss => match sum_rows t with Some [row] => fields vs row ss | _ => false end
+  | ESome vs, SSum _ _ ss => match sum_rows t with Some [[]; row] => fields vs row ss | _ => false end
+  | ELeft vs _, SSum _ _ ss => match sum_rows t with Some [l; _] => fields vs l ss | _ => false end
+  | ERight _ vs, SSum _ _ ss => match sum_rows t with Some [_; r] => fields vs r ss | _ => false end
+  | EArray vs elem, SExt _ _ (SPSeq ss _) _ | EList vs elem, SExt _ _ (SPSeq ss _) _ => elems vs elem ss
+  | EStatic vs elem _, SExt _ _ (SPStatic ss _ _) _ => elems vs elem ss
+  | _, _ => true
+  end.
+
 (* one serialized form s of the value (its own, or the one a graph document holds for a Const node) against the
    reported type t: it inhabits t (the judgment reads both spellings), and it is the value the constructor was
-   asked for *)
+   asked for - inside the domain at every level, outside it at the root *)
 Definition mon_ser (std : stddefs) (e : vexpr) (t : ty) (s : sval) : bool :=
-  (if wf_expr std e then has_type_b std s t else true) && shape_ok std e t (general s t).
+  if wf_expr std e then has_type_b std s t && shape_deep std e t (general s t)
+  else shape_ok std e t (general s t).
 
 Definition mon_val (std : stddefs) (e : vexpr) (oty : option ty) (oser : option sval) (docs : list sval)
                    (ports : option (list ty)) (nin : nat) (linked : bool) : bool :=
@@ -250,3 +288,56 @@ Module SpellingExamples.
     mon (CVal std (EBool false) (Some (TUnitSum 2)) (Some (STuple [])) [] (Some [TUnitSum 2]) 0 true) = false.
   Proof. vm_compute. reflexivity. Qed.
 End SpellingExamples.
+
+(* ---- helpers over sugar: the verdicts on a helper that looks into an argument which is itself sugar (checked at
+   every build).  In each rejected observation the reported type IS inhabited by the serialized form (the value is
+   consistently one level too shallow) and the root clause holds where it only counts fields; the clause applied to
+   the sub-expression rejects it. ---- *)
+Module SugarExamples.
+  Import HV.proofs.ValuesP.
+  Definition std := ex_std.
+  Definition B := TUnitSum 2.
+  Definition opt (t : ty) := TSum [[]; [t]].
+  Definition verdicts (e : vexpr) (t : ty) (s : sval) : bool * bool :=
+    (mon (CVal std e (Some t) (Some s) [] (Some [t; t]) 0 true),
+     corr (CVal std e (Some t) (Some s) [] (Some [t; t]) 0 true)).
+  (* None_(Option(Bool)) : Option(Option(Bool)) *)
+  Example none_of_option_accepted : verdicts (ENone [opt B]) (opt (opt B)) (SSum 0 (opt (opt B)) []) = (true, true).
+  Proof. vm_compute. reflexivity. Qed.
+  (* seeded C14-h: the payload row of the option is unpacked - None_(Bool) is built *)
+  Example none_of_option_unpacked_rejected : verdicts (ENone [opt B]) (opt B) (SSum 0 (opt B) []) = (false, false).
+  Proof. vm_compute. reflexivity. Qed.
+  Example unpacked_none_is_consistent : has_type_b std (SSum 0 (opt B) []) (opt B) = true.
+  Proof. vm_compute. reflexivity. Qed.
+  (* the same under a Some: Some(None_(Option(Bool))) : Option(Option(Option(Bool))) *)
+  Example nested_accepted :
+    verdicts (ESome [ENone [opt B]]) (opt (opt (opt B))) (SSum 1 (opt (opt (opt B))) [SSum 0 (opt (opt B)) []]) = (true, true).
+  Proof. vm_compute. reflexivity. Qed.
+  Example nested_unpacked_rejected :
+    verdicts (ESome [ENone [opt B]]) (opt (opt B)) (SSum 1 (opt (opt B)) [SSum 0 (opt B) []]) = (false, false).
+  Proof. vm_compute. reflexivity. Qed.
+  Example nested_unpacked_is_consistent_and_passes_the_root_clause :
+    has_type_b std (SSum 1 (opt (opt B)) [SSum 0 (opt B) []]) (opt (opt B)) &&
+    shape_ok std (ESome [ENone [opt B]]) (opt (opt B)) (SSum 1 (opt (opt B)) [SSum 0 (opt B) []]) = true.
+  Proof. vm_compute. reflexivity. Qed.
+  (* Some(Some(TRUE)) collapsed to Some(TRUE): one field either way *)
+  Example some_of_some_accepted :
+    verdicts (ESome [ESome [EBool true]]) (opt (opt B)) (SSum 1 (opt (opt B)) [SSum 1 (opt B) [SSum 1 B []]]) = (true, true).
+  Proof. vm_compute. reflexivity. Qed.
+  Example some_of_some_collapsed_rejected :
+    verdicts (ESome [ESome [EBool true]]) (opt B) (SSum 1 (opt B) [SSum 1 B []]) = (false, false).
+  Proof. vm_compute. reflexivity. Qed.
+  (* Tuple(Tuple(TRUE)) flattened to Tuple(TRUE), in the shorthand *)
+  Example tuple_of_tuple_accepted :
+    verdicts (ETuple [ETuple [EBool true]]) (TSum [[TSum [[B]]]]) (STuple [STuple [SSum 1 B []]]) = (true, true).
+  Proof. vm_compute. reflexivity. Qed.
+  Example tuple_of_tuple_flattened_rejected :
+    verdicts (ETuple [ETuple [EBool true]]) (TSum [[B]]) (STuple [SSum 1 B []]) = (false, false).
+  Proof. vm_compute. reflexivity. Qed.
+  (* inside a collection that declares the element type: ListVal([Some(Some TRUE)], Option(Option Bool)) whose
+     element was collapsed does not inhabit the list type (has_type_b) *)
+  Example in_list_rejected :
+    fst (verdicts (EList [ESome [ESome [EBool true]]] (opt (opt B))) (s_list std (opt (opt B)))
+           (SExt CList (s_list std (opt (opt B))) (SPSeq [SSum 1 (opt B) [SSum 1 B []]] (opt (opt B))) [td_ext (d_list std)])) = false.
+  Proof. vm_compute. reflexivity. Qed.
+End SugarExamples.
